@@ -106,7 +106,7 @@ def register(spec):
         'world': 'self._current_world != None and wf(self._current_world)',
     }, havoc=['self.last_timestamp', 'self._current_world', 'self._current_world_handle',
               'ghost:tlog', 'ghost:wplog', 'World._components', 'World._entities',
-              'World._dead_entities', 'World._events', 'World._handlers', 'World._event_queue',
+              'World._dead_entities', 'World._never', 'World._events', 'World._handlers', 'World._event_queue',
               'World._dispatch_enabled', 'World._sorted_processors', 'World._processors',
               'World.id_generator', 'World.id_generator_factory',
               'Handle._cache', 'Handle._cached', 'ghost:log', 'ghost:cnt', 'ghost:plog',
@@ -251,7 +251,7 @@ def register_switch_fn(spec):
                 'all(implies(w != None, wf(w, "Disp")) for w in World)'],
       modifies=['Handle._cache', 'Handle._cached', 'World._events', 'World._handlers',
                 'World._event_queue', 'World._dispatch_enabled', 'World._components',
-                'World._entities', 'World._dead_entities', 'World._sorted_processors',
+                'World._entities', 'World._dead_entities', 'World._never', 'World._sorted_processors',
                 'World._processors', 'World.id_generator', 'World.id_generator_factory',
                 'ghost:log', 'ghost:cnt', 'ghost:dlog', 'ghost:alive'],
       ensures={'never-returns-normally': 'False'},
